@@ -63,7 +63,8 @@ def _case2(draw):
     # plain Python values as binding values, the falsy ones included (0 and '' are values like any other)
     plain = (not wrap) and draw(st.booleans())
     return {"keys": keys0, "nvals": nvals, "wrap": wrap, "plain": plain, "extra_key": extra, "ops": ops,
-            "caller_reuses_its_dict": draw(st.sampled_from([None, None, "clear", "overwrite"]))}
+            "caller_reuses_its_dict": draw(st.sampled_from([None, None, "clear", "overwrite"])),
+            "none_outputs": draw(st.sampled_from([False, False, True]))}
 
 
 def strategy(tier):
@@ -184,7 +185,7 @@ def check(case) -> Outcome:
     for step, op in enumerate(case["ops"]):
         if op[0] == "ins":
             b = {int(k): v for k, v in op[1].items()}
-            out = f"o{n_out}"
+            out = None if (case.get("none_outputs") and n_out % 3 == 1) else f"o{n_out}"      # None is an output like any other
             n_out += 1
             passed = {k: val(v) for k, v in b.items()}
             cache.insert(passed, out)
